@@ -35,7 +35,6 @@ class Method(Variable):  # i.e. TypeBound procedure
             link_obj=link_obj,
         )
         self.drop_arg: int = -1
-        self._in_hover: bool = False  # re-entrancy guard of get_hover
         self.pass_name: str = keyword_info.get("pass")
         if link_obj is None:
             self.link_name = get_paren_substring(self.get_desc(True).lower())
@@ -81,19 +80,20 @@ class Method(Variable):  # i.e. TypeBound procedure
         if self.link_obj is None:
             sub_sig, _ = self.get_snippet()
             hover_str = f"{self.get_desc()} {sub_sig}"
-        elif self._in_hover:
-            # The interface has this very entity among its dummy arguments,
-            # e.g. `subroutine s(p); procedure(s) :: p`: do not expand it again
+        elif getattr(self.link_obj, "_in_hover", False):
+            # The interface is being rendered already, e.g. for
+            # `subroutine s(p, q); procedure(s) :: p, q`: do not expand it once
+            # more for every dummy argument that names it
             sub_sig, _ = self.get_snippet()
             hover_str = f"{self.get_desc()} {sub_sig}"
         else:
-            self._in_hover = True
+            self.link_obj._in_hover = True
             try:
                 link_msg, link_docs = self.link_obj.get_hover(
                     long=True, drop_arg=self.drop_arg
                 )
             finally:
-                self._in_hover = False
+                self.link_obj._in_hover = False
             # Replace the name of the linked object with the name of this object
             hover_str = link_msg.replace(self.link_obj.name, self.name, 1)
             if isinstance(link_docs, str):
